@@ -6,8 +6,8 @@
 From Coq Require Import List NArith ZArith Bool.
 From Coq Require String.
 Import String.StringSyntax.
-From Sccache Require Import Base.Sx Model.DistStatus Model.DistFallback Model.DistArgs Model.DistHistory.
-From Sccache Require Proofs.DistStatus Proofs.DistFallback Proofs.DistArgs Proofs.DistHistory.
+From Sccache Require Import Base.Sx Model.DistStatus Model.DistFallback Model.DistArgs Model.DistHistory Model.DistRustInputs.
+From Sccache Require Proofs.DistStatus Proofs.DistFallback Proofs.DistArgs Proofs.DistHistory Proofs.DistRustInputs.
 Import ListNotations.
 
 (* ------------------------------------------------------------------ exit status *)
@@ -229,6 +229,37 @@ Theorem C13_toolchain_fits_every_request : forall limit size : N,
     r_out r = OOk DistOk (to_local 0) /\ r_local_ran r = false.
 Proof. exact Proofs.DistHistory.tc_fits_every_request. Qed.
 Print Assumptions C13_toolchain_fits_every_request.
+
+(* ------------------------------------------------------------------ Rust inputs: trimmed dependency rlibs *)
+
+(* whatever the order, grouping (separate options / comma lists) and repetition of the --crate-type options: if any
+   requested crate type needs object code (staticlib, bin, dylib, cdylib, proc-macro) the request is either not
+   distributed at all (uncacheable) or every dependency rlib is sent complete *)
+Theorem C13_rlibs_complete_when_object_code_needed : forall (opts : list (list cty)) (sibling meta : bool),
+  existsb (existsb needs_object_code) opts = true ->
+  packaged opts sibling meta = None \/ packaged opts sibling meta = Some Complete.
+Proof. exact Proofs.DistRustInputs.rlibs_complete_when_needed. Qed.
+Print Assumptions C13_rlibs_complete_when_object_code_needed.
+
+(* and no dependency rlib is ever left out of the inputs archive *)
+Theorem C13_rlib_never_missing : forall (opts : list (list cty)) (sibling meta : bool),
+  packaged opts sibling meta <> Some Missing.
+Proof. exact Proofs.DistRustInputs.rlib_never_missing. Qed.
+Print Assumptions C13_rlib_never_missing.
+
+(* before the fix: an rlib built by a current rustc (metadata member lib.rmeta) vanished from a pure-rlib job *)
+Theorem C13_rlib_missing_refuted_before_fix :
+  send_rlib_orig {| c_rlib := true; c_staticlib := false |} false false = Missing.
+Proof. reflexivity. Qed.
+Print Assumptions C13_rlib_missing_refuted_before_fix.
+
+Example rust_inputs_examples :
+  packaged [[TRlib]] false true = Some Trimmed
+  /\ packaged [[TStaticlib]; [TRlib]] false true = Some Complete
+  /\ packaged [[TRlib]; [TStaticlib; TLib]] false true = Some Complete
+  /\ packaged [[TLib]] true true = Some Complete
+  /\ packaged [[TRlib]; [TCdylib]] false true = None.
+Proof. vm_compute. auto. Qed.
 
 (* ------------------------------------------------------------------ remote command line *)
 
